@@ -18,6 +18,18 @@ CHECKS = {
    tech="TLA+ spec JtCheckFine (interruptible walk with Commit/Rollback and fault actions; broken rollback modes refuted by TLC) + JtArray; rows with faults injected at every call-out position executed on the code and re-decided by TLC (Rows_JtFault)",
    text="TLC proves NothingBoundOnFailure on the interruptible-walk model for every (context, annotation, shape, fault position, exception class) of the bounded universe and refutes it for the two broken rollback modes; every row is executed on the real isinstance - plain, with an Exception/BaseException injected at the k-th .shape access or {arg}.__format__, repeated when it passed, followed by probe checks after a failure, flat and nested spellings - and TLC re-decides verdict, post-context, idempotence and probes.",
    note="Call-outs considered: .shape accesses and __format__ of {args}. The PyTree half (k-th leaf, structure names) is bound through harness/pytree_rows when present. Exhaustive within the stated constants only."),
+ "C08": dict(cat="model_checking", sec="5 C08",
+   tech="TLA+ spec JtPyTree (leaf discovery, shared context, union/tuple/nested-PyTree leaf types, commit/rollback); TLC exhaustive depth-1 table over all trees of depth<=2 with theorems (NestEquiv, NoneAccepted, Rollback, Idempotent, Monotone); every row executed on the code and re-decided by TLC; random deep trees validated the same way",
+   text="All trees of depth<=2/width<=2 over the stated node kinds and atoms x 11 leaf types x {PyTree[L], PyTree[L,'T']} x 3 contexts: verdict and resulting bindings (axes, *variadics, structure names) of the real isinstance must equal the specification's; random trees of depth<=4 over tuples, lists, dicts, None, namedtuples and a registered node, and bare PyTree.",
+   note="Leaf types are a finite catalogue; structured inner PyTrees as leaf types excluded. Trusted: jax.tree_util for abstracting real structures, TLC, renderers."),
+ "C09": dict(cat="model_checking", sec="5 C09",
+   tech="TLA+ spec JtPyTree (StructStep: bind / equal / compose / prefix / suffix; StructStringAllowed); TLC exhaustive (t,s,x,form) table with the declarative reading FormMeaning as a theorem; every row executed on the code after binding T,S by accepted checks and re-decided by TLC",
+   text="For every t,s of depth<=1 (or unbound), every candidate x of depth<=2 and all 7 forms, the real verdict (True/False/AnnotationError) and post-context must equal the specification's; all structure strings of <=3 pieces over {identifier, '...', non-identifier} and non-strings must raise ValueError exactly where the specification says; first-use binding checked under leaf types that roll back.",
+   note="T and S range over depth<=1 trees only. '...' at both ends / alone is treated as unspecified (D11 not claimed)."),
+ "C16": dict(cat="model_checking", sec="5 C16",
+   tech="TLA+ spec JtPyTree/JtArray (per-leaf keys LabelOf(i,S) o name, label inheritance through structure-less PyTrees, AnnotationError outside / under two structured PyTrees); TLC exhaustive depth-1 table from contexts in which an earlier tree bound T and per-leaf sizes; rows executed on the code and re-decided by TLC",
+   text="Second and later trees are checked in contexts where T=(*,*) and per-leaf '?a' / '*?v' values (and a plain a) are already bound: same position must agree, different positions are independent, plain axes do not interact, '?' in unions / tuples / structure-less PyTrees / nested annotation spellings is usable under exactly one structured PyTree, AnnotationError outside and beneath two structured PyTrees.",
+   note="Manual isinstance route only (decorated-call route is exercised by C02/C13 harness). Per-leaf keys are abstracted from storage keys by a regular expression."),
 }
 NOT_YET = {}
 
